@@ -719,7 +719,7 @@ func init() {
 	core.Register(&core.Prop{
 		ID:    "C13",
 		Level: "exploration",
-		Rule: "Plus directed variants: wildcard+linkgroup (a link group spread over three wildcard matches landing in one directory, an unrelated - possibly prefix-named - file in between) and a destination root spelled '.' with the working directory inside the destination. random source trees (adversarial names incl. a 255-byte name, files around the 32KiB boundary, symlinks relative/absolute/dangling/looping, fifos, char and block devices, a few sockets, hard-link groups of regular files and of fifos/char devices, in 1 tree of 6 a hard-link group of 2-3 socket names and in 1 of 6 a hard-link group of 2-3 symlink names (dangling, relative, absolute targets; same or different directories), setuid/setgid/sticky, owners {0,1234,65534}, ns/negative/far-future mtimes, user.* xattrs on files and dirs, trusted.* xattrs on symlinks, random metadata on the source root itself, 1/8 of the directories without any execute bit, up to two extra symlinks whose absolute or relative target is an existing entry) are created on disk and copied with fs.Copy into an empty destination root; " +
+		Rule: "Source files with holes (1 case of 6, a third of the files: a hole up to the end made by truncate, a file that is one hole, data-hole-data; sizes 1 byte to 200000 beyond the data): the copy has the bytes a read of the source returns. Plus directed variants: wildcard+linkgroup (a link group spread over three wildcard matches landing in one directory, an unrelated - possibly prefix-named - file in between) and a destination root spelled '.' with the working directory inside the destination. random source trees (adversarial names incl. a 255-byte name, files around the 32KiB boundary, symlinks relative/absolute/dangling/looping, fifos, char and block devices, a few sockets, hard-link groups of regular files and of fifos/char devices, in 1 tree of 6 a hard-link group of 2-3 socket names and in 1 of 6 a hard-link group of 2-3 symlink names (dangling, relative, absolute targets; same or different directories), setuid/setgid/sticky, owners {0,1234,65534}, ns/negative/far-future mtimes, user.* xattrs on files and dirs, trusted.* xattrs on symlinks, random metadata on the source root itself, 1/8 of the directories without any execute bit, up to two extra symlinks whose absolute or relative target is an existing entry) are created on disk and copied with fs.Copy into an empty destination root; " +
 			"source = {whole tree, one sub-directory, one file/fifo/device/socket, one symlink}; destination argument = {existing root, new nested path n1/n2/leaf, new nested directory n1/n2/}; flags = FollowLinks on/off, CopyDirContents on/off (directory sources), process umask {0,022,077}; in 1/8 of the cases (xattr fault variant) the destination root is a fresh directory on a file system that rejects oversized xattr values (probed at run time: /var/tmp, /tmp, /root or $VERIF_C13_XFAULT_BASE; the source stays on tmpfs), 1-3 entries carry a 4500/8000/20000-byte value of a key K in {user.xf, trusted.xf, user.k1}, at least two other files/dirs/symlinks (and sometimes the source root) carry the SAME key with 0-40 byte values at names sorting before and after the oversized ones, and the handler is AllowXAttrErrors or a recording tolerant handler (7/8) or an aborting one (1/8); " +
 			"options drawn independently: WithChown (uid,gid from {0,1,1234,65534,4000000000}), Mode (octal incl. special bits) or ModeStr (symbolic: 20 classic forms and a grammar of 1-3 clauses of who-lists x 1-2 operations + - = x subsets of rwx, X (not after '-'), s, t (with who 'a', or alone as +t/-t), permission copies u/g/o), Utime (ns, negative, far future; in 1/12 of the Utime cases an instant OUTSIDE the window an int64 nanosecond count can hold: the two instants one nanosecond outside it, years 2262-2400, years 1500-1677, random second and nanosecond), XAttrErrorHandler {nil, allow, recording-strict, recording-tolerant}, change notifier on 7/8 of the cases. " +
 			"Oracle: independent lstat/readlink/listxattr/bytes snapshot of the source, re-rooted at the landing path, with the option overrides applied, compared with the snapshot of the destination (type, bytes, symlink target, mode incl. special bits, uid/gid, ns mtime of files, symlinks and directories, xattrs, rdev, link groups recomputed from source inodes inside the copied subset); symbolic modes are evaluated by /bin/chmod on scratch nodes of the same type and original mode; directories created above the target must carry the requested owner and timestamp; when the landing path is the image of a source directory but existed before its contents were copied (the destination root, or a path created with MkdirAll for CopyDirContents / a trailing-slash destination) that directory's own ns mtime must equal the source directory's (or the requested Utime) - nothing else of it is judged; for a requested time outside the int64-ns window every copied entry (files, dirs, symlinks, specials), every directory created above the target and the landing directory are read with lstat as (sec, nsec) pairs and must equal the pair an independent utimensat(AT_SYMLINK_NOFOLLOW) of the requested (sec, nsec) leaves on a scratch node of the same destination file system (file-system clamping is thereby tolerated; the mtime columns of the generic diff are masked for these cases; a Copy that refuses such a time is counted, not judged); an xattr (entry, key) may be missing in the copy only if the recording handler was called for exactly that destination path and key, or - AllowXAttrErrors - an independent lsetxattr of that key/value on a scratch node of the destination file system is refused (a tolerated failure of one key does not excuse the other keys of the entry); every handler call must name a copied destination path and carry an error; the notifier must be called exactly once per non-directory with its leading-slash normalised destination path (calls for directories are counted, not judged). " +
@@ -1235,6 +1235,38 @@ func c13Run(c *core.Ctx) *core.Result {
 			os.WriteFile(filepath.Join(mounted[1], "c"), []byte("TWO-C"), 0600)
 			os.Link(filepath.Join(mounted[1], "c"), filepath.Join(mounted[1], "d"))
 			r.Count("sources_with_two_mounted_file_systems", 1)
+		}
+	}
+	// sparse files: a hole at the end (truncate beyond the data), a file that
+	// is one hole, a hole between data. The bytes are what a read returns;
+	// time stamps are put back, the snapshot below is taken afterwards.
+	if sr := core.NewRand(core.Mix(c.Seed, "C13-sparse", c.Index)); sr.P(1, 6) {
+		for i := range t.Entries {
+			e := &t.Entries[i]
+			if e.Type != tree.File || !sr.P(1, 3) {
+				continue
+			}
+			full := filepath.Join(srcDir, e.Path)
+			var st unix.Stat_t
+			if unix.Lstat(full, &st) != nil {
+				continue
+			}
+			size := st.Size + int64(core.Pick(sr, []int{1, 4095, 4096, 4097, 70000, 200000}))
+			switch sr.Intn(3) {
+			case 0: // data, then a hole up to the end
+				unix.Truncate(full, size)
+			case 1: // nothing but a hole
+				unix.Truncate(full, 0)
+				unix.Truncate(full, size)
+			default: // data, hole, data
+				if f, err := os.OpenFile(full, os.O_WRONLY, 0); err == nil {
+					f.WriteAt([]byte("tail-after-hole"), size)
+					f.Close()
+				}
+			}
+			unix.Chmod(full, st.Mode&07777)
+			unix.UtimesNanoAt(unix.AT_FDCWD, full, []unix.Timespec{st.Atim, st.Mtim}, unix.AT_SYMLINK_NOFOLLOW)
+			r.Count("source_files_with_holes", 1)
 		}
 	}
 	if err := tree.ApplyMeta(srcDir, &rootMeta); err != nil {
